@@ -24,6 +24,7 @@
    hypotheses: `C01_grammar_cpp`, `C01_grammar_c` are unconditional on the descriptor side; Scope/GrammarAll.v
    and Scope/GrammarAllProofs*.v do the same for all six brace languages (`C01_grammar_brace`).
    Scope/PyGrammar.v and Scope/PyGrammarProofs*.v do it for Python (`C01_grammar_python`).
+   Scope/GrammarParse.v is an executable recogniser of the brace grammar, proved sound (`C01_recognised_programs`).
    MISSING: constructs the formal grammars leave out (brace groups inside parameter lists, multi-line Python
    headers and backslash continuations: covered in the hypothesis form and by the generator only), and the
    lexers themselves (oracles under the C16 contract).
@@ -31,7 +32,7 @@
 From Verif Require Import Base Token Lex LexProofs Headers Blocks Pairing Fold ScanFile Spec
   SpecProofsDyck SpecProofsPairing SpecProofsFold SpecProofsCount SpecProofs
   Regex TokEngine HeaderSpec HeaderProofsDfa HeaderProofsSelect HeaderProofs SpecCheck
-  LexShapes ShapeProofs PySpec PySpecProofsLines PySpecProofs PySpecCheck PyLexical GenCompare TieProofs Grammar GrammarProofs GrammarAll GrammarAllProofsWf GrammarAllProofs PyGrammar PyGrammarProofs.
+  LexShapes ShapeProofs PySpec PySpecProofsLines PySpecProofs PySpecCheck PyLexical GenCompare TieProofs Grammar GrammarProofs GrammarAll GrammarAllProofsWf GrammarAllProofs PyGrammar PyGrammarProofs GrammarParse GrammarParseProofs.
 From Coq Require Import Sorted Permutation.
 
 Theorem C01_brace_pipeline_partial : forall (l : language) toks ds,
@@ -172,6 +173,17 @@ Theorem C01_grammar_brace_meets_hypotheses : forall l ts ds, l <> LPython -> can
   wf_descs ts ds /\ lexically_canonical_of l ts ds.
 Proof. intros l ts ds Hl H. split; [exact (canonical_of_wf l ts ds Hl H)|exact (canonical_of_lexical l ts ds Hl H)]. Qed.
 
+(* an executable recogniser of that grammar (Scope/GrammarParse.v) is sound, so for every program it accepts — the
+   harness runs it inside Coq on generated programs — the end-to-end statement holds with no descriptor-side hypothesis *)
+Theorem C01_grammar_recogniser_sound : forall (l : language) (ts : list token) (ds : list fdesc),
+  parse_program l ts = Some ds -> canonical_program_of l ts ds.
+Proof. exact parse_program_sound. Qed.
+Theorem C01_recognised_programs : forall (l : language) toks ds, l <> LPython ->
+  let code := filter_tokens false toks in
+  parse_program l code = Some ds -> StronglySorted pos_lt code -> filter_nocl_comment_tokens toks = [] ->
+  scan_file l toks = expected_all code ds ds.
+Proof. intros l toks ds Hl code Hp HS Hn. exact (C01_brace_grammar l toks ds Hl (parse_program_sound l code ds Hp) HS Hn). Qed.
+
 (* ---- and for Python (Scope/PyGrammar.v: blocks of lines at one indentation; a definition line `[async] def name (...)+ ...`
         followed by a deeper block is a function with that block as its suite; physical lines, no continuation) ---- *)
 Theorem C01_grammar_python : forall toks ds, let code := filter_tokens false toks in
@@ -237,6 +249,8 @@ Print Assumptions C01_grammar_python.
 Print Assumptions C01_grammar_python_meets_hypotheses.
 Print Assumptions C01_python.
 Print Assumptions C01_python_blocks.
+Print Assumptions C01_grammar_recogniser_sound.
+Print Assumptions C01_recognised_programs.
 Print Assumptions C01_python_hypotheses_decidable.
 Print Assumptions C01_c_pipeline_partial.
 Print Assumptions C01_blocks_are_dyck.
